@@ -120,6 +120,22 @@ func corpus(o *hc.Out, dir string) {
 	// fixed in /repo (00af35b): an updated CRLF file ends with CRLF
 	diaRun(o, dir, dt(), with(option.CSV, func(op *opts) { op.lb = text.CRLF }), true, text.AUTO, "fixed.F28.csv.crlf_file_updated")
 	diaRun(o, dir, dt(), with(option.LTSV, func(op *opts) { op.lb = text.CRLF }), true, text.AUTO, "fixed.F28.ltsv.crlf_file_updated")
+	// a header-less file keeps its line break, enclosure and encoding through UPDATE + COMMIT under
+	// --no-header (the line break has to be detected from the records, there is no header line)
+	for _, f := range []option.Format{option.CSV, option.TSV} {
+		for _, lb := range []text.LineBreak{text.LF, text.CRLF, text.CR} {
+			for _, q := range []bool{false, true} {
+				for _, e := range []text.Encoding{text.UTF8, text.UTF8M, text.SJIS} {
+					if f == option.TSV && (e != text.UTF8 || q) {
+						continue
+					}
+					d := with(f, func(op *opts) { op.lb = lb; op.encloseAll = q; op.enc = e; op.withoutHeader = true })
+					// a CR-terminated file does not load (F24): the CR file is written without ending line break
+					diaRun(o, dir, dt(), d, lb != text.CR, e, "dialect.no_header."+fmtName(f)+"."+lbName(lb)+".q"+b01(q)+"."+encName(e))
+				}
+			}
+		}
+	}
 	// known (F25): an updated UTF-16 file gets its ending line break as raw bytes
 	diaRun(o, dir, dt(), with(option.CSV, func(op *opts) { op.enc = text.UTF16BEM }), true, text.AUTO, "F25.csv.dialect_ending_line_break_not_transcoded")
 	diaRun(o, dir, dt(), with(option.TSV, func(op *opts) { op.enc = text.UTF16LEM }), true, text.AUTO, "F25.tsv.dialect_ending_line_break_not_transcoded")
